@@ -210,6 +210,7 @@ class real_eval_macro(Macro):
     def eval(self, goal, prevs):
         assert len(prevs) == 0, "real_eval_macro: no conditions expected"
         assert goal.is_equals(), "real_eval_macro: goal must be an equality"
+        assert goal.lhs.get_type() == RealType, "real_eval_macro: goal must be an equality between real numbers"
         assert real_eval(goal.lhs) == real_eval(goal.rhs), "real_eval_macro: two sides are not equal"
 
         return Thm(goal)
@@ -877,6 +878,8 @@ class RealEqMacro(Macro):
     def eval(self, goal, prevs=None):
         if len(goal.get_vars()) != 0:
             raise ConvException
+        if not ((goal.is_equals() or goal.is_compares()) and goal.arg1.get_type() == RealType):
+            raise ConvException
         try:
             if goal.is_equals():
                 if real_eval(goal.lhs) == real_eval(goal.rhs):
@@ -995,6 +998,7 @@ class RealCompareMacro(Macro):
 
     def eval(self, goal, prevs=[]):
         assert goal.is_compares(), "real_compare_macro: Should be an inequality term"
+        assert goal.arg1.get_type() == RealType, "real_compare_macro: Should compare real numbers"
         lhs, rhs = real_eval(goal.arg1), real_eval(goal.arg)
         if goal.is_less():
             assert lhs < rhs, "%f !< %f" % (lhs, rhs)
